@@ -743,7 +743,7 @@ func c15Types(c *Ctx, r *Report, ev *Evaluator) {
 	for t := 0; t < 512; t++ {
 		k, a, b, err := c.fitBits(ev, uint16(t))
 		if err != "" {
-			if (t&0x1F) <= 0x10 {
+			if (t & 0x1F) <= 0x10 {
 				r.fail("C15-7-fitbits", fmt.Sprintf("Fit(%d)", t), "", err)
 			}
 			continue
